@@ -442,6 +442,8 @@ def run_plan(ctx, pid, tier):
         c = dict(E.SCALED_CFGS[n][0])
         if not quick:
             c["N"] = int(c.get("N", 30)) + 4       # longer streams in the thorough tier
+        elif "ModeBefore" in c:
+            c["N"] = 22                              # normal-mode configurations are the largest: shorter streams in quick
         return E.scaled(**c)
     skip_design = os.environ.get("C1_SKIP_DESIGN") == "1"   # mutation testing of /repo copies only: the design stage does not read /repo
     if skip_design:
@@ -512,7 +514,7 @@ def run_plan(ctx, pid, tier):
     fast_dev = os.environ.get("C1_DEV_ONLY_CEX") == "1"      # development aid: design counter-examples only
     if fast_dev:
         tour_cfgs = []
-    tfuts = [pool.submit(tour_jobs, ctx, n, (14 if quick else 150), random.Random(rnd.getrandbits(30)), pool) for n in tour_cfgs]
+    tfuts = [pool.submit(tour_jobs, ctx, n, (14 if quick else 100), random.Random(rnd.getrandbits(30)), pool) for n in tour_cfgs]
     for f in tfuts:
         for j in f.result():
             jobs.append(j)
@@ -522,7 +524,7 @@ def run_plan(ctx, pid, tier):
     elif pid == "C01":
         for j in corner_jobs(tier):
             jobs.append(j); meta.append(("corner", {}))
-        for j in grid_jobs(rnd, 130 if quick else 3000, (1 << 20) if quick else (8 << 20), trace_every=2 if quick else 4):
+        for j in grid_jobs(rnd, 130 if quick else 1800, (1 << 20) if quick else (6 << 20), trace_every=2 if quick else 4):
             jobs.append(j); meta.append(("grid", {}))
         for j in bias_jobs(tier, rnd):
             jobs.append(j); meta.append(("bias", {}))
@@ -533,7 +535,7 @@ def run_plan(ctx, pid, tier):
             j["mutations"] = 12 if j["writer"] == "lzma2" and sum(s["len"] for s in j["input"]) > 1000 else 0
             j["mut_seed"] = rnd.getrandbits(30)
             jobs.append(j); meta.append(("corner", {}))
-        for j in grid_jobs(rnd, 70 if quick else 2000, (1 << 19) if quick else (8 << 20), trace_every=2):
+        for j in grid_jobs(rnd, 70 if quick else 1200, (1 << 19) if quick else (4 << 20), trace_every=2):
             if j["writer"] == "lzma2" and sum(s["len"] for s in j["input"]) > 1000:
                 j["mutations"] = 10
                 j["mut_seed"] = rnd.getrandbits(30)
@@ -779,7 +781,7 @@ def try_symlib(ctx, tier):
 def run_c13(ctx, tier, rnd, pool, design):
     quick = tier == "quick"
     groups = []      # (group id, [jobs]) - all jobs of a group must produce the same bytes
-    n_in = 26 if quick else 400
+    n_in = 26 if quick else 300
     for i in range(n_in):
         writer = rnd.choice(["lzma2", "lzma1", "lzma2", "lzip", "xz"])
         opt = opts_pool(rnd, writer)
@@ -925,7 +927,7 @@ def c13_mt(ctx, tier, rnd, classes):
         return {"status": "mtlib absent"}
     quick = tier == "quick"
     scns, keys = [], []
-    n_sched = 14 if quick else 120
+    n_sched = 14 if quick else 80
     for fam in ("lzma2_writer", "lzip_writer"):
         for unit, total_units, cls in ((4096, 3, "mixed"), (5000, 4, "text")) if quick else ((4096, 3, "mixed"), (5000, 4, "text"), (8192, 5, "random")):
             total = unit * total_units - 700
